@@ -208,6 +208,41 @@ Theorem C16_response_undamped : forall (agg ext : list R -> R) (hist : list (lis
 Proof. intros agg ext hist sf. exact (response_run_undamped agg ext hist sf). Qed.
 Print Assumptions C16_response_undamped.
 
+(* histories in which the aggregation parameter (p, rho, alpha; also its sign) is re-assigned on the module between
+   response() calls: hist = [(aggregation function of the CURRENT parameter, selected entries)].
+   A constant parameter is the special case; the supplied-value history evaluated by the correspondence check is an
+   instance; undamped scaling returns the true extreme at every call; without scaling call k returns the value for
+   the parameter of call k, hence within the bounds for THAT parameter. *)
+Theorem C16_history_constant_parameter : forall (agg ext : list R -> R) (damp : option R) (hist : list (list R)) sf,
+  response_run agg ext damp sf hist = response_run_par ext damp sf (map (fun xs => (agg, xs)) hist).
+Proof. intros agg ext damp hist sf. exact (response_run_is_par agg ext damp hist sf). Qed.
+Print Assumptions C16_history_constant_parameter.
+
+Theorem C16_history_supplied_values : forall (is_max : bool) (damp : option QArith_base.Q)
+    (hist : list (list QArith_base.Q * QArith_base.Q)) sf,
+  response_run_obs is_max damp sf hist =
+  response_run_par (qext is_max) damp sf (map (fun q => ((fun _ : list QArith_base.Q => snd q), fst q)) hist).
+Proof. intros is_max damp hist sf. exact (response_run_obs_is_par is_max damp hist sf). Qed.
+Print Assumptions C16_history_supplied_values.
+
+Theorem C16_continuation_undamped : forall (ext : list R -> R) (hist : list ((list R -> R) * list R)) (sf : option R),
+  (forall agg xs, In (agg, xs) hist -> agg xs <> 0) ->
+  response_run_par ext (Some 0) sf hist = map (fun q => ext (snd q)) hist.
+Proof. intros ext hist sf. exact (response_run_par_undamped ext hist sf). Qed.
+Print Assumptions C16_continuation_undamped.
+
+Theorem C16_continuation_unscaled : forall (ext : list R -> R) (hist : list ((list R -> R) * list R)) (sf : option R),
+  response_run_par ext None sf hist = map (fun q => fst q (snd q)) hist.
+Proof. intros ext hist sf. exact (response_run_par_unscaled ext hist sf). Qed.
+Print Assumptions C16_continuation_unscaled.
+
+Theorem C16_continuation_pnorm_bounds : forall (ext : list R -> R) (hist : list (R * list R)) (sf : option R) k p x M,
+  nth_error hist k = Some (p, x) -> 0 < p -> all_pos x -> is_max M x ->
+  exists y, nth_error (response_run_par ext None sf (map (fun q => (pnorm (fst q), snd q)) hist)) k = Some y /\
+            M <= y <= Rpower (INR (length x)) (1 / p) * M.
+Proof. intros ext hist sf. exact (pnorm_continuation_bounds ext hist sf). Qed.
+Print Assumptions C16_continuation_pnorm_bounds.
+
 (* damping d: s_0 = true_0/approx_0, s_k = d*s_(k-1) + (1-d)*true_k/approx_k, for every call sequence *)
 Theorem C16_scaling_recurrence : forall (d : R) (calls : list (R * R)),
   let s := scaling_run d None calls in
